@@ -167,7 +167,7 @@ def main(argv):
                 json.dump(payload, open(path, 'w'), indent=1, default=str)
                 if rep is True:
                     reproduced_keys.add(base_key)
-                    violations.append({'key': rin.get('key', base_key), 'text': '%s fails: %s' % (g.ob.name, rin.get('what', '')),
+                    violations.append({'deductive': True, 'base_key': base_key, 'key': rin.get('key', base_key), 'text': '%s fails: %s' % (g.ob.name, rin.get('what', '')),
                                        'replay': path, 'suffix': ''})
                     continue
                 if rep is False and r['verdict'] == 'sat':
@@ -208,12 +208,17 @@ def main(argv):
 
     # ---------------------------------------------------------------- known findings
     final_viol = []
+    n_known_obligations = 0
     for v in violations:
         hit = next((k for k in known if k['key'] == v['key']), None)
         if hit:
             known_hits.append(hit)
+            if v.get('deductive'):
+                n_known_obligations += 1 + duplicates.get(v.get('base_key'), 0)
         else:
             final_viol.append(v)
+    # obligations that fail exactly as a listed known finding are reported separately, not as undischarged proof obligations
+    n_proof -= n_known_obligations
     seen = set()
     for k in known_hits:
         if k['key'] in seen:
@@ -235,6 +240,7 @@ def main(argv):
         'trusted_base': sorted(set(S.assumptions + meta.get('trusted_base', []))),
         'functions_under_contract': S.functions,
         'vacuity_canaries': n_canary,
+        'obligations_failing_as_known_findings': n_known_obligations,
         'solver_ms_total': solver_ms,
         'per_obligation': per_ob if len(per_ob) <= 400 else per_ob[:400] + [{'truncated': len(per_ob) - 400}],
         'clauses': S.clauses or meta.get('clauses', {}),
